@@ -30,6 +30,7 @@ RULE = (
     "on_action_error inside choose/enqueueActions) and never be decided silently; parameterised guards return "
     "params['want'] (literal or computed params); stateIn is true iff the named state is active; after the event a "
     "second event is still handled. Exhaustive part enumerates every formula of depth<=2; Hypothesis part draws depth<=4. "
+    "Parameterised guards with falsy params ({} 0 False '' [], declared or computed) must still be handed their params. "
     "Non-trivial = formula of depth>=1 or containing a raising/missing atom; distinct = distinct (formula, position, spelling, engine)."
 )
 ASSUMPTIONS = [
